@@ -93,6 +93,8 @@ class VpC15Sets(Serializable):
     sb: Set[bool] = None
     sc: Set[VpC15Color] = None
     sm: Set[VpC15Mode] = None
+    so: Set[VpC15Basic] = None
+    sp: Set[VpC15Pair] = None
 
 
 class VpC15Tuples(Serializable):
@@ -435,6 +437,9 @@ def field_strategy(s):
         return obj_strategy(s[1])
     if kind == "list":
         return st.one_of(st.none(), st.lists(element_strategy(s[1]), max_size=4).map(lambda l: {"l": l}))
+    if kind == "set" and isinstance(s[1], tuple) and s[1][0] == "obj":
+        # objects hash by identity: any number of (also equal-valued) members
+        return st.one_of(st.none(), st.lists(obj_strategy(s[1][1]), max_size=4).map(lambda l: {"s": l}))
     if kind == "set":
         return st.one_of(st.none(), st.lists(scalar_strategy(s[1], for_set=True), unique_by=_uniq_key, max_size=5).map(lambda l: {"s": l}))
     if kind == "tuple":
